@@ -19,7 +19,15 @@ var plainRunes = []rune{'"', '\\', '/', 0x7f, 0x80, 0xa0, 0xe9, 0x2028, 0x2029, 
 // below U+0020 is produced.
 func GenString(ctrl bool) *rapid.Generator[string] {
 	return rapid.Custom(func(t *rapid.T) string {
-		switch rapid.IntRange(0, 9).Draw(t, "strkind") {
+		switch rapid.IntRange(0, 10).Draw(t, "strkind") {
+		case 10:
+			// text that LOOKS like an escape sequence (output of a tool that prints encoded JSON), HTML-sensitive
+			// characters, every control character that has a short escape in some language
+			atoms := []string{`\u0026`, `\u003c`, `\u003e`, `\n`, `\"`, `\\`, "&", "<", ">", "&&", "\u2028", "\u2029", "x", "\x7f"}
+			if ctrl {
+				atoms = append(atoms, "\a", "\b", "\f", "\v", "\t")
+			}
+			return strings.Join(rapid.SliceOfN(rapid.SampledFrom(atoms), 1, 4).Draw(t, "escapelike"), "")
 		case 0:
 			return ""
 		case 1:
